@@ -110,8 +110,39 @@ const crawlRule = "one case = one generated scenario (Zeno configuration, simula
 var props = map[string]*propDef{}
 
 func init() {
-	props["C01"] = crawlProp("exploration", crawlRule, 480, 18000, scen.CrawlOpts{Prop: "C01", MinSeeds: 1, MaxSeeds: 8, Faults: true, Hops: true, Adversarial: true})
-	props["C02"] = crawlProp("exploration", crawlRule, 480, 18000, scen.CrawlOpts{Prop: "C02", MinSeeds: 1, MaxSeeds: 6, Faults: true, BodyVariety: true})
+	c01crawl := crawlProp("exploration", crawlRule, 480, 18000, scen.CrawlOpts{Prop: "C01", MinSeeds: 1, MaxSeeds: 8, Faults: true, Hops: true, Adversarial: true})
+	props["C01"] = &propDef{level: c01crawl.level, rule: c01crawl.rule + "; plus the stop / pause enumeration of C03 on one (thorough: six) scenario(s): whatever is reported finished while the pipeline shuts down must have a finished tree", assumptions: c01crawl.assumptions, components: c01crawl.components, quickRuns: c01crawl.quickRuns, thorRuns: c01crawl.thorRuns,
+		planFn: func(p *propDef, tier string, seed uint64, n int) []*Case {
+			cases := c01crawl.plan(tier, seed, n)
+			nProf := 1
+			if tier == "thorough" {
+				nProf = 6
+			}
+			for _, c := range planC03(p, tier, seed^0xc01, nProf) {
+				c.Idx = len(cases)
+				c.Label = "stop-enumeration: " + c.Label
+				cases = append(cases, c)
+			}
+			return cases
+		}}
+	c02crawl := crawlProp("exploration", crawlRule, 480, 18000, scen.CrawlOpts{Prop: "C02", MinSeeds: 1, MaxSeeds: 6, Faults: true, BodyVariety: true})
+	props["C02"] = &propDef{level: c02crawl.level, rule: c02crawl.rule + "; plus the stop / pause enumeration of C03 on one (thorough: six) scenario(s): a seed that is still reported finished while the pipeline shuts down must have its captures written all the same", assumptions: c02crawl.assumptions, components: c02crawl.components, quickRuns: c02crawl.quickRuns, thorRuns: c02crawl.thorRuns,
+		planFn: func(p *propDef, tier string, seed uint64, n int) []*Case {
+			cases := c02crawl.plan(tier, seed, n)
+			nProf := 1
+			if tier == "thorough" {
+				nProf = 6
+			}
+			for j, c := range planC03(p, tier, seed^0xc02, nProf) {
+				c.Idx = len(cases)
+				c.Label = "stop-enumeration: " + c.Label
+				if j%2 == 1 {
+					c.Scenario.Sched.Slow, c.Scenario.Sched.SlowDiv = "warc.write", 64
+				}
+				cases = append(cases, c)
+			}
+			return cases
+		}}
 	c06crawl := crawlProp("exploration", crawlRule, 480, 18000, scen.CrawlOpts{Prop: "C06", MinSeeds: 1, MaxSeeds: 6, Faults: true, Hops: true, Adversarial: true})
 	props["C06"] = &propDef{level: "exploration", rule: crawlRule + "; every fourth case crawls generated JSON / XML / RSS / sitemap / M3U8 documents instead, whose links must be queued with the parent's hops + 1", assumptions: e2eAssumptions, components: e2eComponents, quickRuns: 600, thorRuns: 24000,
 		gen: func(t *scen.Tape, i int, tier string) *scen.Scenario {
